@@ -437,6 +437,11 @@ func runScenario(d *scripted, dAddr string, cfg *pb.Config, fail func(clause, si
 		return
 	}
 	v1 := cci(A)
+	// (a membership change is dropped while the shard has no leader: wait for one, so that the next step is not vacuous)
+	if !wait(func() bool { _, _, ok, err := A.NH.GetLeaderID(sid); return ok && err == nil }) {
+		run.Count("c18:inconclusive_scenario")
+		return
+	}
 	// 2. fenced ADD: wrong version has no effect, the right one applies
 	add := func(ver uint64) *pb.NodeHostRequest {
 		return &pb.NodeHostRequest{Change: &pb.Request{Type: pb.Request_ADD, ShardId: sid, Members: []uint64{4}, ConfChangeId: ver}, RaftAddress: A.Addr, AddressList: []string{D.Addr}}
